@@ -5,6 +5,7 @@
   contract on the implementation only (see DESIGN.md §6 C07: PARTIAL).
 -/
 import Spydr.IR.CloneLemmas
+import Spydr.IR.BelowStep
 import Spydr.IR.Props.C14
 namespace Spydr.IR
 
@@ -95,6 +96,16 @@ theorem cloneNetlist_closed (s : S) (off : OId) (hb : Below s off) :
     grind [shO_eq_some]
   · intro d i h
     grind
+
+/-- **For every reachable heap**: whatever history of public calls built it (all objects mentioned lying
+    below `off`, which is how fresh objects are numbered), cloning gives a heap in which originals and
+    copies together are well-formed, nothing of the original changed, the copy is isomorphic and no pointer
+    crosses. (`Below` is thereby not an assumption about the heap but a consequence of how it was built.) -/
+theorem cloneNetlist_reachable (ops : List Op) (off : OId) (ho : ∀ op ∈ ops, op.below off) :
+    let s := (run S.init ops).1
+    Inv (s.double off) ∧ Below s off := by
+  have hb := run_below off ops S.init (below_init off) ho
+  exact ⟨double_inv _ off (run_inv ops _ init_inv) hb, hb⟩
 
 /-! Non-vacuity: the demo heap of Props/C02 lies below 10, is duplicated, and the copy has the same shape. -/
 example : ((run S.init demo2).1.double 10).wirePins 10 = [.outer 10 11] ∧
